@@ -304,3 +304,17 @@ class SymBuilder:
     def finish(self, kind='AsciiString'):
         self.ctx.add(z3.ULE(self.pos, self.maxlen))
         return Buf(self.arr, self.pos, self.maxlen, kind)
+
+
+def concretize(ctx, e):
+    """if the path condition determines e uniquely, return that constant (else e). Two solver calls."""
+    c = conc(e)
+    if c is not None:
+        return bv(c, e.size()) if z3.is_bv(e) else e
+    m = ctx.model()
+    if m is None:
+        return e
+    v = m.eval(e, model_completion=True)
+    if ctx.ex.check(e != v) == z3.unsat:
+        return v
+    return e
